@@ -8,7 +8,7 @@ B = BLOCK
 DECOYS = ["decoy_all", "decoy_some", "decoy_head", "longer", "shorter"]
 
 
-def pick(rng, P, shapes=("D2", "D3", "D4", "S1", "D2n", "DN", "DU", "D5", "DNFC", "DS", "DS")):
+def pick(rng, P, shapes=("D2", "D3", "D4", "S1", "D2n", "DN", "DU", "D5", "DNFC", "DS", "DS", "DM")):
     A = [a for a in alphabet(P) if a <= 3 * P + B + 1]
     while True:
         sh = rng.choice(shapes)
@@ -259,7 +259,8 @@ class C14(RebuildProp):
             def cands(fi, f):
                 m = rng.randrange(4)
                 return [self.cand(rng, rng.choice(["intact"] + DECOYS)) for _ in range(m)]
-            out.append(self.scen(rng, P, v, pick(rng, P), cands, lambda fi, f: rng.choice(pres), repeat=k % 3 == 0,
+            out.append(self.scen(rng, P, v, pick(rng, P), cands, lambda fi, f: rng.choice(pres),
+                                 repeat=(3 if k % 9 == 0 else True) if k % 3 == 0 else False,
                                  route="cli" if k % 7 == 0 else "lib"))
         # a file that starts exactly on a piece boundary and has only / first a dead decoy, while the
         # files before it are intact (so the piece that ends at the boundary verifies)
